@@ -42,6 +42,19 @@ expl("C18", "runtime monitoring: per-function reference implementations compared
 expl("C20", "runtime monitoring: sequential per-key register model replayed against real query histories sharing one variable map",
      "Held on every generated history (1..4 queries, 1..4 keys) explored: GETVAR values, no SETVAR column, caller's map after each Exec.")
 
+expl("C10", "runtime monitoring: process-level crash/hang monitor (recover at the API, child exit status, watchdog, background-call quiescence) over seeded hostile workloads in crash-isolated children; thorough adds a -race pass",
+     "Held on every generated (query, option set, document) explored across 22 families of valid, mutated, random and named-hostile inputs: control always returned with rows or an error; no escaped panic, process death or hang. 'Never loops forever' is decided as bounded progress.")
+CHECKS["C11"] = ("fault_enumeration", "runtime monitoring: cycle-safe input snapshot before/after New+Exec; fault enumeration over every invocation index of an injected failing function (error and three panic kinds)",
+     "Held on every generated query explored, on success and on error, with and without Wrapped; for queries with a fault position every crash point k = 1..N is enumerated (exhaustive in k per query, sampled in queries).", TRUST, "DESIGN.md §6 C11")
+expl("C12", "runtime monitoring: plain-data type walk + encoding/json round trip + repeated evaluation, over the full (expression form x clause position) matrix",
+     "Held on every successful query of the enumerated form x position matrix and of the rich grammar: only JSON-representable acyclic values, no engine-internal type or `<-` key, equal results on repetition.")
+expl("C13", "Go race detector over concurrent and internally-parallel workloads with hook-injected yields + per-goroutine result vs run-alone result + shared-document snapshot",
+     "Held on every concurrent workload explored (5 workload kinds, 2..16 goroutines): no race report with genql frames, no child death, no deadlock, no cross-talk, shared document unchanged. Says nothing about schedules the runs did not produce.")
+expl("C14", "runtime monitoring: invocation ledger (atomic sequence numbers) of instrumented user functions vs exec-return, result vs pure-function reference, under injected latency profiles; -race pass with hook yields",
+     "Held on every generated (table, select list, latency profile) explored: ASYNC/SPINASYNC invoked exactly once per row and completed before Exec returned, ASYNC values equal the unqualified call, no extra column, ONCE once per query, immediate functions reject ASYNC/SPIN/SPINASYNC.")
+CHECKS["C19"] = ("fault_enumeration", "runtime monitoring: fault enumeration - a failing user function placed in every clause position, every invocation index k = 1..N enumerated; RAISE_WHEN on every row index; type errors in every clause; follow-up query vs pristine copy",
+     "Held for every fault point of every generated query explored: (no rows, error) and an unaffected follow-up. Exhaustive in k per query, sampled in queries.", TRUST, "DESIGN.md §6 C19")
+
 def main():
     props = [json.loads(l) for l in open(os.path.join(ROOT, "properties.jsonl"))]
     hooks_commits = []
